@@ -99,7 +99,19 @@ Definition reuse_check (e : env) (c : reuse_case) : bool :=
 Definition huge_check (e : env) (sid : nat) (h : hexs) : bool :=
   match decode e sid (unhex h) with DHuge => true | _ => false end.
 
-Inductive gcase := GEnc (c : c03_case) | GDec (c : dec_case) | GReuse (c : reuse_case) | GHuge (sid : nat) (h : hexs).
+(* codec.Reader.ReadSliceInt8 / ReadSliceUint8 called directly with length n on these bytes, into a slice that holds
+   other content: the bytes read and the number of bytes left, or an error *)
+Inductive sobs := SlVal (h : hexs) (remaining : N) | SlErr.
+Definition slice_check (n : Z) (h : hexs) (o : sobs) : bool :=
+  match read_slice n (unhex h), o with
+  | Some (s, r), SlVal hs rem => bytes_eqb s (unhex hs) && (N.of_nat (length r) =? rem)
+  | None, SlErr => true
+  | _, _ => false
+  end.
+
+Inductive gcase := GEnc (c : c03_case) | GDec (c : dec_case) | GReuse (c : reuse_case) | GHuge (sid : nat) (h : hexs)
+| GSlice (n : Z) (h : hexs) (o : sobs).
 Definition gcase_check (e : env) (c : gcase) : bool :=
   match c with GEnc x => c03_check e x | GDec x => dec_check e x | GReuse x => reuse_check e x
-  | GHuge sid h => huge_check e sid h end.
+  | GHuge sid h => huge_check e sid h
+  | GSlice n h o => slice_check n h o end.
